@@ -26,6 +26,7 @@ PROFILES = {
     "spill": dict(pressure=(5, 16), budget=(4, 9), ntypes=(1, 2)),
     "objects": dict(field_counts=(2, 3, 4, 5, 6, 7, 8), budget=(5, 12)),
     "printy": dict(pressure=(0, 20), budget=(3, 8), ntypes=(1, 2), max_fields=3),
+    "tables": dict(xtor_counts=(4, 5, 6, 8), field_counts=(0, 1, 1, 2), budget=(4, 9), ntypes=(1, 2)),
     "noprint": dict(prints=False, max_params=3, budget=(3, 9)),
     "noprint_spill": dict(prints=False, pressure=(3, 9), max_params=2, budget=(3, 7), ntypes=(1, 2)),
 }
